@@ -188,7 +188,8 @@ def run_window(ctx, spec):
   checks = {k: getattr(sc, v[0])() for k, v in KINDS.items()}
   for i in range(spec['n']):
     for count, w in ((23, 48), (24, 48), (25, 48), (47, 32), (48, 32),
-                     (49, 32), (50, 24)) + (((119, 16), (120, 16), (121, 16))
+                     (49, 32), (50, 24), (52, 16), (60, 16)) + ((
+                         (119, 16), (120, 16), (121, 16))
                                             if ctx.tier != 'quick' else ()):
       kind = rng.choice(['msb', 'prefix', 'postfix'])
       if not ctx.want('%d/%d/%d' % (i, count, w)):
